@@ -111,40 +111,34 @@ theorem later_instances_fresh (T : Tables) (c n : Name) (cfg : List (Name × Pro
     class_description_stable T c ops w (invRun_of_admissible T ops w hb hs hrun) hops]
   exact ⟨rfl, rfl⟩
 
-/-- the full statement: the description of a class in the heap is the same in any two reachable worlds in which
-the classes along its MRO were declared alike -/
+/-- the full statement: in any two programs that define their classes with the same bodies (`env`), each in an
+order consistent with inheritance, a class defined by both has the same description in the heap -/
 def order_independent_statement : Prop :=
-  ∀ (T : Tables) (ops1 ops2 : List Op) (c : Name),
-    (∀ m d, m ∈ (match (run T {} ops1).findClass c with | some r => r.pure.decl.mro | none => []) →
-      (Op.define d ∈ ops1 ∧ d.name = m ↔ Op.define d ∈ ops2 ∧ d.name = m)) →
-    describeH (run T {} ops1) (.cls c) = describeH (run T {} ops2) (.cls c)
+  ∀ (T : Tables) (env : Name → Option ClassDecl) (ops1 ops2 : List Op),
+    AdmissibleRun T {} ops1 → ConsistentRun T env {} ops1 → AdmissibleRun T {} ops2 → ConsistentRun T env {} ops2 →
+    ∀ n, (run T {} ops1).findClass n ≠ none → (run T {} ops2).findClass n ≠ none →
+      describeH (run T {} ops1) (.cls n) = describeH (run T {} ops2) (.cls n)
 
-/-- proved part of `order_independent_statement`, at value level: what `__init_subclass__` computes for a
-class (all its accessibles with their merged properties and datatypes, `ClassRec.pure`) is the same whether
-or not an unrelated class `d2` (not on its MRO) was defined first — it is a function of the classes along
-its own MRO and its own declarations.  Missing: that the heap layout shows exactly these values
-(`describeH` = views of `pure`), which is covered by the correspondence run only. -/
-theorem order_independent_partial (T : Tables) (w : World) (d1 d2 : ClassDecl)
-    (hne : d1.name ≠ d2.name) (hmro : d2.name ∉ d1.mro.tail) (hnew : w.findClass d1.name = none) :
-    ((defineClass T (defineClass T w d2) d1).findClass d1.name).map (·.pure) =
-      ((defineClass T w d1).findClass d1.name).map (·.pure) := by
-  have hd2 : (pureDefine T (chainOf w d2) d2).decl.name = d2.name := by rw [pureDefine_decl]
-  have hchain : chainOf (defineClass T w d2) d1 = chainOf w d1 :=
-    chainOf_layout w _ d1 (by rw [hd2]; exact hmro)
-  have hnew2 : (defineClass T w d2).findClass d1.name = none := by
-    unfold defineClass
-    rw [findClass_layout_ne w _ d1.name (by rw [hd2]; exact hne)]
-    exact hnew
-  have key : ∀ (w' : World), w'.findClass d1.name = none →
-      ((defineClass T w' d1).findClass d1.name).map (·.pure) = some (pureDefine T (chainOf w' d1) d1) := by
-    intro w' h'
-    have hn : (pureDefine T (chainOf w' d1) d1).decl.name = d1.name := by rw [pureDefine_decl]
-    unfold defineClass
-    have := findClass_layout_new w' (pureDefine T (chainOf w' d1) d1) (by rw [hn]; exact h')
-    rw [hn] at this
-    rw [this]
-    rfl
-  rw [key _ hnew2, key _ hnew, hchain]
+/-- proved part of `order_independent_statement`, at value level, for whole programs: what
+`__init_subclass__` computed for a class (all accessibles with merged properties, datatypes, export names, order:
+`ClassRec.pure`, the value the heap layout is made from) is `pureOf env` — a function of the class bodies along
+its MRO only — whatever else was defined or instantiated or mutated, in whatever order consistent with
+inheritance.  Hence any two such programs agree on it.
+Missing for the full statement: that `describeH` shows exactly the views of `pure` (faithfulness of `layout`
+for inherited shared accessibles and declared command arguments); covered by the correspondence run only. -/
+theorem order_independent_partial (T : Tables) (env : Name → Option ClassDecl) (ops1 ops2 : List Op)
+    (ha1 : AdmissibleRun T {} ops1) (hc1 : ConsistentRun T env {} ops1)
+    (ha2 : AdmissibleRun T {} ops2) (hc2 : ConsistentRun T env {} ops2)
+    (n : Name) (cr1 cr2 : ClassRec) (h1 : (run T {} ops1).findClass n = some cr1)
+    (h2 : (run T {} ops2).findClass n = some cr2) :
+    cr1.pure = cr2.pure ∧ ∃ f, pureOf T env f n = some cr1.pure := by
+  have hempty : PureInv T env {} := fun m cr h => by simp [World.findClass] at h
+  obtain ⟨f1, hf1⟩ := pureInv_run T env ops1 {} ha1 hc1 hempty n cr1 h1
+  obtain ⟨f2, hf2⟩ := pureInv_run T env ops2 {} ha2 hc2 hempty n cr2 h2
+  have e1 := hf1 (max f1 f2) (Nat.le_max_left _ _)
+  have e2 := hf2 (max f1 f2) (Nat.le_max_right _ _)
+  rw [e1] at e2
+  exact ⟨Option.some.inj e2, _, e1⟩
 
 /-! ## non-vacuity -/
 
@@ -154,21 +148,43 @@ def exT : Tables :=
    ["value", "target"], [("description", "description", "\"\"", true, true), ("readonly", "readonly", "true", true, true)],
    [("description", "description", "\"\"", true, true)]⟩
 
+def dA : ClassDecl := ⟨"A", ["A"], true, [("p", .param (some "\"d\"") (some (.node "double" [("max", "10")] [] [])) [] true)]⟩
+def dB : ClassDecl := ⟨"B", ["B", "A"], true, [("p", .param none none [("max", "5")] true)]⟩
+def dC : ClassDecl := ⟨"C", ["C", "A"], true, [("p", .value "1" false none)]⟩
+
 /-- a base class with a parameter, a subclass narrowing it, two instances of the subclass with different
 configuration, a mutation of one of them, and a late sibling class -/
 def exOps : List Op :=
-  [.define ⟨"A", ["A"], true, [("p", .param (some "\"d\"") (some (.node "double" [("max", "10")] [] [])) [] true)]⟩,
-   .define ⟨"B", ["B", "A"], true, [("p", .param none none [("max", "5")] true)]⟩,
-   .inst "i1" "B" [("p", [("max", "3")])],
-   .inst "i2" "B" [],
-   .setprop "i1" "p" "max" "2",
-   .define ⟨"C", ["C", "A"], true, [("p", .value "1" false none)]⟩]
+  [.define dA, .define dB, .inst "i1" "B" [("p", [("max", "3")])], .inst "i2" "B" [], .setprop "i1" "p" "max" "2", .define dC]
 
 /-- the example program is admissible from the empty world (hypothesis of `invRun_of_admissible`,
 `isolated_reachable`, `later_instances_fresh`) … -/
 example : AdmissibleRun exT {} exOps := by
   refine ⟨rfl, ?_, ?_, ?_, trivial, ?_, trivial⟩ <;>
     exact Option.isNone_iff_eq_none.1 (by decide +kernel)
+
+/-- the class bodies of the example program -/
+def exEnv (n : Name) : Option ClassDecl :=
+  if n = "A" then some dA else if n = "B" then some dB else if n = "C" then some dC else none
+
+/-- … consistent with inheritance w.r.t. its own class bodies (hypothesis of `order_independent_partial`) … -/
+example : ConsistentRun exT exEnv {} exOps := by
+  refine ⟨⟨by simp [exEnv, dA], fun m hm => ?_⟩, ⟨by simp [exEnv, dB], fun m hm => ?_⟩, trivial, trivial, trivial,
+    ⟨by simp [exEnv, dC], fun m hm => ?_⟩, trivial⟩
+  · simp [dA] at hm
+  · simp only [dB, List.tail_cons, List.mem_singleton] at hm
+    subst hm
+    intro _ h
+    have : ((step exT {} (.define dA)).findClass "A").isSome = true := by decide +kernel
+    rw [h] at this
+    cases this
+  · simp only [dC, List.tail_cons, List.mem_singleton] at hm
+    subst hm
+    intro _ h
+    have : ((run exT {} (exOps.take 5)).findClass "A").isSome = true := by decide +kernel
+    have h' : (run exT {} (exOps.take 5)).findClass "A" = none := h
+    rw [h'] at this
+    cases this
 
 /-- … and it is not trivial: it builds 3 classes and 2 instances out of 11 heap objects, and the mutation of
 `i1` is visible in `i1` (max 2) while `i2` shows the class value (max 5) -/
